@@ -218,3 +218,11 @@ Theorem C01_source_freshness :
   (forall h date, src_heuristic_freshness h date = heuristic_freshness h date).
 Proof. split; [exact tie_calculate_freshness|split; [exact tie_current_age|exact tie_heuristic_freshness]]. Qed.
 Print Assumptions C01_source_freshness.
+
+(* the instants an entry is stored with are read around the origin call by the roundTripTimed of roundtripper.go on this run
+   (a clock reading, the call, a clock reading; a response without a usable Date is dated by the second reading) *)
+From HC.Generated Require Import SrcTimed.
+From HC.Proofs Require Import TieTimed.
+Theorem C01_source_timed_call : forall (A : Type) q (c : origin_reply -> Z -> Z -> prog A), src_round_trip_timed q c = round_trip_timed q c.
+Proof. exact @tie_round_trip_timed. Qed.
+Print Assumptions C01_source_timed_call.
